@@ -611,6 +611,46 @@ impl VerifManager {
             .map_err(|error| format!("{error:?}"))
     }
 
+    /// Like `answer_open_success`, for a protocol whose event channel may be full: the report is awaited the way a real
+    /// connection task awaits it, and `drain` is called whenever it is blocked so that the caller can let the protocol read
+    /// some events.
+    pub fn answer_open_success_draining(
+        &mut self,
+        id: usize,
+        substream_id: usize,
+        stream: crate::yamux::Stream,
+        drain: &mut dyn FnMut(),
+    ) -> Result<(), String> {
+        let (protocol, permit, keep_alive) =
+            self.open_requests.remove(&substream_id).ok_or("no such open request")?;
+        let mut shared = self.shared.lock();
+        let connection = shared.live.get_mut(&id).ok_or("no such live connection")?;
+        let peer = connection.peer;
+        let codec = connection.protocol_set.protocol_codec(&protocol);
+        let substream = super::substream::substream_from_yamux_with_permit(
+            peer,
+            SubstreamId::from(substream_id),
+            stream,
+            codec,
+            keep_alive.then(|| permit.clone()),
+        );
+        let report = connection.protocol_set.report_substream_open(
+            peer,
+            protocol,
+            Direction::Outbound(SubstreamId::from(substream_id)),
+            substream,
+            permit,
+        );
+        futures::pin_mut!(report);
+        for _ in 0..100_000 {
+            if let Some(result) = tokio::task::unconstrained(report.as_mut()).now_or_never() {
+                return result.map_err(|error| format!("{error:?}"));
+            }
+            drain();
+        }
+        Err("still blocked on a full channel after draining".into())
+    }
+
     /// Reports an inbound substream for `protocol` on connection `id`.
     pub fn report_inbound_substream(
         &mut self,
